@@ -72,23 +72,31 @@ def rule_MP2(rep, prog, g):
     snap = [i for i in fn.all_insts() if i.op == "atomicrmw" and i.d["rmw"] == "xchg" and "dg_notify_tail" in prog.fields(i)]
     res = paths.walk(fn, entry_point(fn), lambda i: False)
     okw = okn = bool(wakes) and bool(asyncs) and bool(snap)
+    def flag_tests(flag):
+        out = []
+        for ii in fn.all_insts():
+            if ii.op == "icmp" and ii.d["pred"] in ("ne", "eq") and ii.ops[1][0] == "c" and ii.ops[1][1] == 0:
+                a = fn.inst(ii.ops[0])
+                if a is not None and a.op == "and" and a.ops[1][0] == "c" and a.ops[1][1] == flag and list(a.ops[0][:2]) == ["a", 1]:
+                    out.append(ii)
+        return out
+    tw, tn = flag_tests(HW), flag_tests(HN)
+    if not tw or not tn:
+        rep.unknown(rid, "anchor vanished: _dispatch_group_wake does not test HAS_WAITERS / HAS_NOTIFS of the state it was handed (%d/%d)" % (len(tw), len(tn)))
     for kind, inst, cx_, path in res:
         if kind != "exit":
             continue
         insts = [i for b in path for i in fn.blocks[b].insts]
-        for tst, needed, flag in ((HW, wakes, "w"), (HN, asyncs, "n")):
-            # was (arg1 & flag) != 0 learnt true on this path?
-            for iid, tv in cx_.truth.items():
-                ii = fn.insts[iid]
-                if ii.op == "icmp" and ii.d["pred"] in ("ne", "eq"):
-                    a = fn.inst(ii.ops[0])
-                    if a is not None and a.op == "and" and a.ops[1][0] == "c" and a.ops[1][1] == tst and ii.ops[1][0] == "c" and ii.ops[1][1] == 0:
-                        isset = tv == (ii.d["pred"] == "ne")
-                        if isset and not any(x in insts for x in needed):
-                            if flag == "w":
-                                okw = False
-                            else:
-                                okn = False
+        for tests_, needed, flag in ((tw, wakes, "w"), (tn, asyncs, "n")):
+            # the flag may be set on this path unless a test of it was found false: a path that returns without having looked at the flag at all
+            # (an early return above the test) leaves the waiters / notifications of a set flag behind
+            known = [cx_.truth[t.id] == (t.d["pred"] == "ne") for t in tests_ if t.id in cx_.truth]
+            mayset = (True in known) or not known
+            if mayset and not any(x in insts for x in needed):
+                if flag == "w":
+                    okw = False
+                else:
+                    okn = False
     rep.require(rid, okw, wakes[0].loc if wakes else fn.file, fn.name, "wake-skips-waiters",
                 "_dispatch_group_wake has a path with HAS_WAITERS set that does not call _dispatch_wake_by_address(&dg_gen): blocked "
                 "dispatch_group_wait callers are left behind", sample={"wake_calls": len(wakes)})
@@ -263,6 +271,43 @@ def rule_MP4(rep, prog, g):
                     "mismatch at once and returns 0 while work is still outstanding", sample={"call": c.loc})
 
 
+def rule_MP8(rep, prog, g):
+    rid = rep.rule("C07-MP8", "dispatch_group_enter: the enter that starts a generation (old count == 0, whatever the HAS_WAITERS / HAS_NOTIFS bits say) takes "
+                   "the reference the last leave drops, and the enter that would wrap the 30-bit count back to 'empty' is refused", floor=12)
+    fn = prog.fn("dispatch_group_enter")
+    rep.saw(fn)
+    rmw = [i for i in fn.all_insts() if i.op == "atomicrmw" and (prog.fields(i) & GF)]
+    if len(rmw) != 1:
+        rep.unknown(rid, "expected one atomic RMW on the group state in dispatch_group_enter, found %d" % len(rmw))
+        return
+    VM, IV = g["DISPATCH_GROUP_VALUE_MASK"] & 0xffffffff, g["DISPATCH_GROUP_VALUE_INTERVAL"]
+    def is_retain(i):
+        return (i.op == "call" and i.callee and "retain" in i.callee) or \
+               (i.op == "atomicrmw" and i.d["rmw"] == "add" and (prog.fields(i) & {"os_obj_ref_cnt", "do_ref_cnt"}))
+    def is_trap(i):
+        return i.op == "call" and i.callee == "llvm.trap"
+    for old in (0, 1, 2, 3, IV, IV | 1, IV | 3, 2 * IV, VM, VM | 1, VM | 2, VM | 3, 0x80000000, 0x80000002):
+        seen = []
+        def rec(i, seen=seen):
+            if is_retain(i) or is_trap(i):
+                seen.append(i)
+            return is_trap(i)
+        env = {rmw[0].id: old}
+        last, env = concrete_walk(fn, env, rec)
+        retained = any(is_retain(i) for i in seen)
+        trapped = any(is_trap(i) for i in seen)
+        cnt = old & VM
+        rep.require(rid, retained == (cnt == 0), rmw[0].loc, fn.name, "enter-generation-reference:%#x" % old,
+                    "dispatch_group_enter with previous dg_bits %#x (count field %#x, flag bits %d) %s: the reference dropped by the leave that ends a generation "
+                    "is taken by the enter that finds the count at zero - also while a previous generation's HAS_WAITERS / HAS_NOTIFS bits are still "
+                    "set - and by no other enter; otherwise the group is disposed while in use or leaked"
+                    % (old, cnt, old & 3, "takes no reference" if not retained else "takes a reference"), sample={"old_bits": old, "retains": retained})
+        rep.require(rid, trapped == (cnt == IV), rmw[0].loc, fn.name, "enter-overflow:%#x" % old,
+                    "dispatch_group_enter with previous dg_bits %#x %s: the enter that finds the count field at its last value (%#x: the next one is 0 = "
+                    "'empty') must be refused, and only that one; otherwise 2^30 outstanding enters look like an empty group and dispatch_group_wait / "
+                    "notify report completion with no leave" % (old, "is refused" if trapped else "is accepted", IV), sample={"old_bits": old, "refused": trapped})
+
+
 def rule_OD5(rep, prog, g):
     from .C03 import root_ptr
     rid = rep.rule("C07-OD5", "the implied leave of dispatch_group_async targets the group captured BEFORE the client callout: a continuation is returned to the "
@@ -372,6 +417,8 @@ def run(rep, tier="quick", srcdir=None, only=None):
         rule_MP6(rep, prog, g)
     if want("C07-CP7"):
         rule_CP7(rep, prog, g)
+    if want("C07-MP8"):
+        rule_MP8(rep, prog, g)
     if want("C07-FK"):
         from .sync_common import rule_futex_key
         rule_futex_key(rep, "C07", prog)
